@@ -216,6 +216,7 @@ func (c *Conn) waitCloseHandshake() error {
 	}
 	defer c.readMu.unlock()
 	c.vEv("WchLocked", c.msgReader.payloadLength, 0, 0, 0)
+	c.msgReader.taken = true
 
 	err = c.discardFramePayload(ctx, c.msgReader.payloadLength)
 	if err != nil {
